@@ -77,11 +77,14 @@ def Stmt.isSelect {Db : Type} : Stmt Db → Bool
   | .getVar _ | .curDb | .divZero => true
   | _ => false
 
+/-- `Com_select` (session copy) grows when the analysed node is a SELECT. -/
+def bumpSel (b : Bool) (l : Local) : Local := { l with comSelect := l.comSelect + (if b then 1 else 0) }
+
 /-- Evaluation of one statement: result text and the session's new `Local`. The store is an
 argument, never a result. `SET` keeps the warning list, `SHOW WARNINGS` keeps it, every other
 successfully bound statement clears it (`clearWarnings` in engine.go). -/
 def sem {Db : Type} (st : Stmt Db) (db : Db) (l : Local) : String × Local :=
-  let l := if st.isSelect then { l with comSelect := l.comSelect + 1 } else l
+  let l := bumpSel st.isSelect l
   match st with
   | .read f _ w => (f db, match w with | none => l | some w => { l with warn := w })
   | .setVar v k => ("ok", { l with vars := setVarL l.vars v (some k) })
@@ -187,5 +190,49 @@ def occ (i : Nat) : List Nat → Nat
 /-- All sessions have finished their programs. -/
 def finished {Db : Type} (n : Nat) (progs : Nat → List (Stmt Db)) (g : St Db) : Prop :=
   ∀ i, i < n → (g.sess i).pc = (progs i).length ∧ (g.sess i).phase = .idle
+
+/-! ### access footprints (lockset discipline) -/
+
+/-- Shared locations a read-only statement touches. -/
+inductive Loc where
+  | store            -- table data of the committed store
+  | catalogMap       -- analyzer.Catalog (c.mu)
+  | procList         -- sqle.ProcessList maps and entries (pl.mu)
+  | statusCounter    -- global status counters (atomic.Uint64)
+  | memCaches        -- sql.MemoryManager cache registry (m.mu)
+  | infoTableCatalog -- field `catalog` of the shared information_schema table objects
+  | owned (i : Nat)  -- state owned by session i
+  deriving DecidableEq, Repr
+
+inductive Mode where
+  | plainRead | plainWrite | atomicRMW | lockedRead | lockedWrite
+  deriving DecidableEq, Repr
+
+structure Access where
+  sess : Nat
+  loc : Loc
+  mode : Mode
+  deriving DecidableEq, Repr
+
+def Mode.isWrite : Mode → Bool
+  | .plainWrite | .atomicRMW | .lockedWrite => true
+  | _ => false
+
+def Mode.isPlain : Mode → Bool
+  | .plainRead | .plainWrite => true
+  | _ => false
+
+/-- Two accesses race: different sessions (there is no happens-before edge between sessions other
+than the locks and atomics themselves), same location, one writes, one is unsynchronised. -/
+def racy (a b : Access) : Bool :=
+  a.sess != b.sess && a.loc == b.loc && (a.mode.isWrite || b.mode.isWrite) && (a.mode.isPlain || b.mode.isPlain)
+
+/-- Accesses of one statement of session `i`. `info`: the statement makes the planbuilder resolve
+an information_schema table (`buildResolvedTable` then calls `AssignCatalog`, a plain field write
+on the shared table object, and execution reads that field). -/
+def footprint (i : Nat) (info : Bool) : List Access :=
+  [ ⟨i, .procList, .lockedWrite⟩, ⟨i, .statusCounter, .atomicRMW⟩, ⟨i, .owned i, .plainWrite⟩, ⟨i, .owned i, .plainRead⟩,
+    ⟨i, .store, .plainRead⟩, ⟨i, .catalogMap, .lockedRead⟩, ⟨i, .memCaches, .lockedWrite⟩ ] ++
+  (if info then [⟨i, .infoTableCatalog, .plainWrite⟩, ⟨i, .infoTableCatalog, .plainRead⟩] else [])
 
 end Gms.NonInterf
